@@ -127,6 +127,8 @@ def call_numpy(it, name, mod, fn, args, kwargs, node, fr):
         i_, j_ = pyval(args[1]) % rk_, pyval(args[2]) % rk_
         perm[i_], perm[j_] = perm[j_], perm[i_]
         return call_method(it, args[0], "transpose", [K(a_) for a_ in perm], {}, node, fr)
+    if mod == "numpy" and fn == "broadcast_to" and len(args) >= 2 and isinstance(args[0], Val) and imgdom.axes_of(args[0]) is not None:
+        return args[0]  # an index function broadcast to the image's shape: the same function of the index
     if mod == "numpy" and fn in ("ascontiguousarray", "asfortranarray", "require") and args:
         return args[0]  # memory layout only: the same values in the same index order
     if "where" in kwargs and mod == "numpy" and fn in ("power", "divide", "true_divide", "sqrt", "log", "exp", "multiply", "add", "subtract", "reciprocal",
@@ -412,6 +414,7 @@ def call_numpy(it, name, mod, fn, args, kwargs, node, fr):
         if parts is not None and fn in ("column_stack", "hstack") or (fn == "stack" and parts is not None and is_pyconst(kwargs.get("axis", K(0))) and pyval(kwargs.get("axis", K(0))) in (1, -1)):
             cols = []
             ok = True
+            generic = any(isinstance(p, (Val, Unk)) and as_arr(p) is None for p in parts)
             for p in parts:
                 if isinstance(p, (Val, Unk)) and as_arr(p) is None:
                     cols.append(p.term)
@@ -420,6 +423,13 @@ def call_numpy(it, name, mod, fn, args, kwargs, node, fr):
                     if a is None:
                         ok = False
                         break
+                    if generic and a.ndim == 1 and len(a.cols) > 1 and fn in ("column_stack", "stack"):
+                        # a 1-D vector of k entries next to generic per-row vectors: one column; its generic entry is known
+                        # only when all entries are the same term (np.full)
+                        if all(c_ == a.cols[0] for c_ in a.cols):
+                            cols.append(a.cols[0])
+                            continue
+                        raise Unsupported("column_stack of a generic vector with an enumerated vector of different entries", node)
                     cols.extend(a.cols)
             if ok:
                 return Arr(cols, 2, _space(*parts))
@@ -1035,6 +1045,9 @@ def call_method(it, recv, name, args, kwargs, node, fr):
             return u
     if isinstance(recv, Unk):
         it.record("call", "method:" + name, [recv] + args, dict(kwargs), node)
+        if name in _STR_METHODS and recv.term.op == "call" and str(recv.term.args[0]).startswith(("str.", "builtins.str", "strformat")):
+            # a method of a value that is itself the result of a string operation
+            return Unk(call("str." + name, recv.term, *[to_term(a) for a in args]))
         if name == "reshape" and args:
             from . import imgdom as _img
             rs = _img.reshape_axes(it, recv, args[0] if len(args) == 1 else Seq(args, "tuple"), node)
